@@ -76,6 +76,7 @@ struct Pencil
     Mat A, B;          // full symmetric matrices (type T)
     Mat Ap, Bp;        // poisoned copies handed to the wrappers: only the triangle named by uplo is valid
     MatL AL, BL;       // long double images of the cast matrices
+    VecL D;            // prescribed generalized eigenvalues (fam=pencil)
     int uploA, uploB;  // Eigen::Lower / Eigen::Upper
 };
 
@@ -87,6 +88,7 @@ static Pencil<T> make_pencil(const Desc& d, bool b_general)
     const std::string fam = d.s("fam", "rand");
     const int lgc = (int) d.i("lgc", 4);
     MatL A, B;
+    VecL pD;
     if (fam == "pencil")
     {
         // A = L D L', B = L L' : generalized eigenvalues = D (prescribed)
@@ -98,8 +100,22 @@ static Pencil<T> make_pencil(const Desc& d, bool b_general)
             L(i, i) = 1.0L + 0.5L * r.uni();
         }
         VecL D = make_spectrum(d.s("spec", "lin"), n, r, d);
-        A = L * D.asDiagonal() * L.transpose();
-        B = L * L.transpose();
+        if (b_general)
+        {
+            // buckling: K = L L' (positive definite), KG = L inv(D) L'  =>  K x = lambda KG x has lambda = D (nonzero)
+            for (int i = 0; i < n; i++)
+                if (D[i] == 0)
+                    D[i] = 15;
+            VecL Di = D.cwiseInverse();
+            A = L * L.transpose();
+            B = L * Di.asDiagonal() * L.transpose();
+        }
+        else
+        {
+            A = L * D.asDiagonal() * L.transpose();
+            B = L * L.transpose();
+        }
+        pD = D;
     }
     else
     {
@@ -110,7 +126,7 @@ static Pencil<T> make_pencil(const Desc& d, bool b_general)
         A = (M + M.transpose()) * 0.5L;
         B = gen_spd(n, r, lgc);
     }
-    if (b_general)
+    if (b_general && fam != "pencil")
     {
         // buckling: "A" is K (positive definite), "B" is KG (symmetric, indefinite allowed)
         MatL K = gen_spd(n, r, lgc);
@@ -131,6 +147,7 @@ static Pencil<T> make_pencil(const Desc& d, bool b_general)
     // exact symmetry after the cast
     p.A = ((p.A + p.A.transpose()) * T(0.5)).eval();
     p.B = ((p.B + p.B.transpose()) * T(0.5)).eval();
+    p.D = pD * scale;
     p.AL = p.A.template cast<LD>();
     p.BL = p.B.template cast<LD>();
     const std::string uplo = d.s("uplo", "ll");
@@ -200,6 +217,8 @@ static void run_chol(const Desc& d, Pencil<T>& p, bool sparse)
     cx.xip_ident = false;
     cx.condfac = p.BL.norm() * p.BL.inverse().norm();
     cx.finish();
+    if (d.i("c04") && p.D.size())
+        set_prescribed(cx, p.D);
     OpStats st, stB;
     if (sparse)
     {
@@ -249,6 +268,8 @@ static void run_reginv(const Desc& d, Pencil<T>& p)
     cx.xip_ident = false;
     cx.condfac = p.BL.norm() * Bi.norm();
     cx.finish();
+    if (d.i("c04") && p.D.size())
+        set_prescribed(cx, p.D);
     OpStats st, stB;
     typedef SparseSymMatProd<T, UploA> InA;
     typedef SparseRegularInverse<T, UploB> InB;
@@ -325,6 +346,8 @@ static void run_shift(const Desc& d, Pencil<T>& p, const std::string& store)
     cx.XIP = cx.IP;
     cx.xip_ident = false;
     cx.finish();
+    if (d.i("c04") && p.D.size())
+        set_prescribed(cx, p.D);
     // the matrix of the inner product: B (ShiftInvert, Cayley) or K = "A" (Buckling); it is passed with the triangle option of that matrix
     const bool buck = Mode == GEigsMode::Buckling;
     Eigen::SparseMatrix<T> As = p.Ap.sparseView(), Bs = p.Bp.sparseView();
